@@ -114,6 +114,45 @@ Theorem C17_clone_carries_stack :
 Proof. exact clone_carries_stack. Qed.
 Print Assumptions C17_clone_carries_stack.
 
+(* ---- --create: the new branch starts at the parent's head with an EMPTY stack (whatever
+   refs/stacks/<new> or refs/patches/<new>/* plain git had left behind is replaced), becomes the
+   current branch, and nothing outside its own refs and its own two config sections changes;
+   when the id of the new state commit is fresh, every other branch keeps its stack ---- *)
+Theorem C17_create_exact :
+  forall r new from hid sid r',
+    create r new from hid sid = (r', true) ->
+    ref_get (b_refs r') (head_ref new)
+      = match from with Some f => ref_get (b_refs r) (head_ref f) | None => Some hid end
+    /\ ref_get (b_refs r') (stack_ref new) = Some sid
+    /\ stack_patches r' new = Some []
+    /\ (forall k v, starts_with (patch_prefix new) k = true -> ~ In (k, v) (b_refs r'))
+    /\ same_refs_outside (ref_of_branch new) r r'
+    /\ same_cfg_outside (fun s => s = new \/ s = stgit_sub new) r r'
+    /\ b_head r' = Some new
+    /\ ((forall k v, In (k, v) (b_refs r) -> v <> sid) ->
+        forall b, b <> new -> stack_patches r' b = stack_patches r b).
+Proof. exact create_exact. Qed.
+Print Assumptions C17_create_exact.
+
+(* ---- switching and describing: no ref changes; switch changes nothing but HEAD, describe
+   nothing but the description of the named branch ---- *)
+Theorem C17_switch_exact :
+  forall r b r' ok,
+    switch r b = (r', ok) ->
+    b_refs r' = b_refs r /\ b_cfg r' = b_cfg r /\ b_states r' = b_states r
+    /\ (ok = true -> b_head r' = Some b) /\ (ok = false -> b_head r' = b_head r).
+Proof. exact switch_exact. Qed.
+Print Assumptions C17_switch_exact.
+
+Theorem C17_describe_exact :
+  forall r b text r' ok,
+    describe r b text = (r', ok) ->
+    b_refs r' = b_refs r /\ b_head r' = b_head r /\ b_states r' = b_states r
+    /\ (forall e, ~ (ce_sub e = b /\ ce_key e = s_description) -> (In e (b_cfg r') <-> In e (b_cfg r)))
+    /\ (ok = true -> cfg_get (b_cfg r') b s_description = match text with [] => None | _ => Some text end).
+Proof. exact describe_exact. Qed.
+Print Assumptions C17_describe_exact.
+
 (* ---- protected branches refuse --delete and --cleanup (the protect flag belongs to a
    stack: without one that opens, --delete does not consult it) ---- *)
 Theorem C17_protected_refuses :
